@@ -49,6 +49,16 @@ def err_will(rng, c, kind, key, lid):
         return {"op": "lock", "c": c, "key": key, "lid": lid, "to": 0, "ex": 30, "rc": 0, "will": True, "db": 255}
     return {"op": "unlock", "c": c, "key": key, "lid": lid, "rc": 0, "will": True, "db": 255}
 
+def traffic(rng, c, n, base):
+    """n requests of connection c on keys / LockIds nobody else uses: completed LOCK+UNLOCK pairs (every request decodes
+    into a recycled command object; the unlock hands two of them back to the connection's free stack)."""
+    steps = []
+    for j in range(max(1, n // 2)):
+        k, l = 7000 + base + j, 8000 + base + j
+        steps.append({"op": "lock", "c": c, "key": k, "lid": l, "to": 0, "ex": 50 + (j % 40), "rc": 0, "batch": rng.random() < 0.3})
+        steps.append({"op": "unlock", "c": c, "key": k, "lid": l, "rc": 0, "batch": rng.random() < 0.3})
+    return steps
+
 def compile_hist(hist, name, seed):
     """hist: list of records of Session!hist.  Returns a scenario for TestVerifW."""
     rng = random.Random(f"{seed}/{name}")
@@ -73,6 +83,7 @@ def compile_hist(hist, name, seed):
         if h["op"] == "expire" and h["rid"] in t_grant:
             fire_ex[h["rid"]] = max(1, t_after[i] - t_grant[h["rid"]] - 2)
     steps, gated, kinds = [], set(), {}
+    ntr = 0
     ordinal, nwills = {}, {}
     for h in hist:
         if h["op"] == "will":
@@ -85,6 +96,8 @@ def compile_hist(hist, name, seed):
         if op == "connect":
             kinds[c] = h["a"]
             steps.append({"op": "conn", "c": c, "kind": h["a"]})
+            if rng.random() < 0.6:                 # completed pairs first: the connection's free stack is not empty when it ends
+                steps += traffic(rng, c, 2 * rng.randint(1, 5), 1000 * c)
         elif op == "init":
             steps.append({"op": "init", "c": c, "cid": h["b"]})
         elif op == "will" and h["a"][0] == "E":
@@ -118,6 +131,11 @@ def compile_hist(hist, name, seed):
             g = h["a"] == "gated"
             if g:
                 gated.add(c)
+            if h["b"] == 0 and rng.random() < 0.5:
+                # ... and once more right before the end: completed pairs, then ONE more request that stays behind (its command
+                # object is the one just above the top of the connection's free stack when Close() empties that stack)
+                steps += traffic(rng, c, 2 * rng.randint(1, 3), 1000 * c + 500)
+                steps.append({"op": "lock", "c": c, "key": 900 + c, "lid": 950 + c, "to": 0, "ex": rng.choice([20, 120, 400]), "rc": 0})
             steps.append({"op": "close", "c": c, "how": rng.choice(HOWS), "gate": g})
             if not g and h["b"] == 0:
                 steps.append({"op": "snap"})
@@ -133,6 +151,14 @@ def compile_hist(hist, name, seed):
                 steps.append({"op": "snap"})
         elif op in ("timeout", "expire"):
             steps.append({"op": "tick", "n": STEP})
+        elif op == "traffic":
+            ntr += 1
+            who = c
+            if rng.random() < 0.6:                 # a FRESH connection takes its command objects from the pool
+                who = 40 + ntr
+                steps.append({"op": "conn", "c": who, "kind": rng.choice(["bin", "bin", "text"])})
+            steps += traffic(rng, who, rng.choice([6, 10, 20, 40]), 100 * ntr)
+            steps.append({"op": "snap"})
     steps += [{"op": "snap", "tag": "model-end"}, {"op": "settle", "n": SETTLE}] + guard_closeall(steps) + [{"op": "closeall"}, {"op": "drain", "n": DRAIN}]
     return {"name": name, "steps": steps, "complete": True}
 
@@ -238,8 +264,23 @@ def gen_random(seed, i, safe=True):
             conns[c]["cid"] = cid
             steps.append({"op": "init", "c": c, "cid": cid})
     held = {}
+    lefts = {}          # key -> (LockId, owner, expiry): holds meant to be LEFT BEHIND (own key per connection, nobody unlocks them)
     for c in order:
         C = conns[c]
+        # phase 0: a few completed lock+unlock pairs (free stack of depth 1..5 when the connection ends), then something to leave behind
+        if rng.random() < 0.75:
+            steps += traffic(rng, c, 2 * rng.randint(1, 5), 1000 * c)
+        if rng.random() < 0.7:
+            ex = rng.choice([10, 25, 60, 300])
+            steps.append({"op": "lock", "c": c, "key": 600 + c, "lid": 650 + c, "to": 0, "ex": ex, "rc": 0})
+            lefts[600 + c] = (650 + c, c, ex)
+            if rng.random() < 0.4:
+                steps.append({"op": "lock", "c": c, "key": 620 + c, "lid": 670 + c, "to": 0, "ex": rng.choice([15, 40, 300]), "rc": 1})
+                lefts[620 + c] = (670 + c, c, 300)
+        others = [k for k, v in lefts.items() if v[1] != c]
+        if others and C["kind"] == "bin" and rng.random() < 0.4:
+            # a request left QUEUED behind somebody else's left-behind hold: granted / timed out at its own terms
+            steps.append({"op": "lock", "c": c, "key": rng.choice(others), "lid": 690 + c, "to": rng.choice([8, 20, 45]), "ex": 30, "rc": 0})
         nreq = rng.randint(0, 3)
         for _ in range(nreq):
             if C["busy"]:
@@ -305,6 +346,22 @@ def gen_random(seed, i, safe=True):
                 steps.append({"op": "unlock", "c": c, "key": k, "lid": held.get(k, 100 + n), "rc": 0, "will": True})
                 C["imm"] = True
             C["wills"] += 1
+        if not C["busy"] and rng.random() < 0.6:
+            # tail: completed pairs again, then exactly ONE more request that stays behind (hold / queued request / will)
+            steps += traffic(rng, c, 2 * rng.randint(1, 5), 1000 * c + 500)
+            kind_ = rng.choice(["hold", "hold", "queued", "will"])
+            others = [k for k, v in lefts.items() if v[1] != c]
+            if kind_ == "queued" and others and C["kind"] == "bin":
+                steps.append({"op": "lock", "c": c, "key": rng.choice(others), "lid": 695 + c, "to": rng.choice([8, 20, 45]), "ex": 30, "rc": 0})
+            elif kind_ == "will":
+                n = fresh()
+                steps.append({"op": "lock", "c": c, "key": 3000 + n, "lid": 4000 + n, "to": 0, "ex": 300, "rc": 1, "will": True})
+                C["wills"] += 1
+                C["imm"] = True
+            else:
+                ex = rng.choice([10, 25, 60, 300])
+                steps.append({"op": "lock", "c": c, "key": 640 + c, "lid": 680 + c, "to": 0, "ex": ex, "rc": 0})
+                lefts[640 + c] = (680 + c, c, ex)
     # phase 2: disconnects, reconnects, timers, releases in a seeded order
     alive = list(order)
     closed = []
@@ -347,6 +404,29 @@ def gen_random(seed, i, safe=True):
                     steps.append({"op": "resume", "c": c})
                 steps.append({"op": "waitclosed", "c": c})
             if not C["busy"]:
+                steps.append({"op": "snap"})
+        elif r < 0.57 and closed:
+            # third-party traffic AFTER somebody ended: one fresh connection does 5..40 requests on other keys, then the
+            # left-behind state is looked at (snapshot) and probed from that connection
+            extra += 1
+            kind = rng.choice(["bin", "bin", "text"])
+            conns[extra] = {"kind": kind, "cid": None, "wills": 0, "busy": False, "imm": False}
+            steps.append({"op": "conn", "c": extra, "kind": kind})
+            alive.append(extra)
+            steps += traffic(rng, extra, rng.randint(5, 40), 100 * extra)
+            steps.append({"op": "snap"})
+            gone = [k for k, v in lefts.items() if v[1] in closed]
+            if gone and rng.random() < 0.6:
+                k = rng.choice(gone)
+                lid = lefts[k][0]
+                if rng.random() < 0.5:
+                    n = fresh()
+                    steps.append({"op": "lock", "c": extra, "key": k, "lid": 100 + n, "to": 0, "ex": 20, "rc": 0})   # must not be granted over it
+                if rng.random() < 0.7:
+                    steps.append({"op": "unlock", "c": extra, "key": k, "lid": lid, "rc": 0})                        # accepted by its LockId
+                    if rng.random() < 0.5:
+                        steps.append({"op": "unlock", "c": extra, "key": k, "lid": lid, "rc": 0})                    # ... once
+                    del lefts[k]
                 steps.append({"op": "snap"})
         elif r < 0.65:
             steps.append({"op": "tick", "n": rng.choice([1, 2, 4, 6, 10])})
